@@ -939,12 +939,21 @@ impl FunctionCompiler<'_> {
                 Some(memory.into_value(&mut self.builder, self.ptr_ty))
             }
             hir::Expr::Index { source, index } => {
-                if self.tys[self.loc][expr].is_zero_sized() {
-                    return None;
-                }
+                // a zero-sized element has no bytes to load, but the index is still evaluated
+                // and checked against the length
+                let element_is_zero_sized = self.tys[self.loc][expr].is_zero_sized();
 
                 let mut source_ty = self.tys[self.loc][source];
-                let mut source = self.compile_expr(source).unwrap(); // this will be usize
+                let mut source = match self.compile_expr(source) {
+                    Some(source) => source, // this will be usize
+                    None => {
+                        // an array of zero-sized elements is zero-sized itself and has no
+                        // address. its length is in its type and nothing is loaded through
+                        // this address
+                        assert!(element_is_zero_sized);
+                        self.builder.ins().iconst(self.ptr_ty, 0)
+                    }
+                };
 
                 let mut required_derefs = 0;
                 while let Some((_, sub_ty)) = source_ty.as_pointer() {
@@ -999,6 +1008,10 @@ impl FunctionCompiler<'_> {
                         "slice index out of bounds"
                     }),
                 );
+
+                if element_is_zero_sized {
+                    return None;
+                }
 
                 // now we have to align the index, the elements of the array only start every
                 // so many bytes (4 bytes for i32, 8 bytes for i64)
